@@ -93,7 +93,9 @@ fn underline_ok(seq: &[usize]) -> bool {
                 cur = 0;
             }
             c => {
-                if cur != 0 && cur != c {
+                // (a plain underline replaced by a styled one is within the domain: every reading agrees that the
+                // styled one is then in effect; the other orders are not)
+                if cur != 0 && cur != c && !(cur == 1 && c >= 2) {
                     return false;
                 }
                 cur = c;
